@@ -713,11 +713,11 @@ func vpRun(out *zzverif.Out, cfg *vpCfg, l *vpLoaded, variant int) {
 		out.L2("panic", caseLine, impl)
 		return
 	}
-	want := func(layers int) bool {
+	want := func(layers int) bool { // every layer of the model, or the user's limit if that is lower
 		if cfg.NumGPU < 0 {
 			return layers == blocks+1
 		}
-		return layers > 0 && layers == cfg.NumGPU
+		return layers > 0 && layers >= min(cfg.NumGPU, blocks+1)
 	}
 	switch {
 	case got == nil:
@@ -756,6 +756,13 @@ func vpRun(out *zzverif.Out, cfg *vpCfg, l *vpLoaded, variant int) {
 		if !want(e.Layers) {
 			out.L2("full-fit-not-placed", caseLine, fmt.Sprintf("full fit declared on [%s] with numParallel=%d NumCtx=%d, but the estimator on that list places %d of %d layers (num_gpu=%d, split=%q)",
 				vpIds(got), np, req.opts.NumCtx, e.Layers, blocks+1, cfg.NumGPU, e.TensorSplit))
+		}
+		if os.Getenv("VERIF_C16_LITERAL") != "" && e.Layers != blocks+1 {
+			class := "other"
+			if cfg.NumGPU > 0 && cfg.NumGPU < blocks+1 {
+				class = "user-limit"
+			}
+			out.L2("full-fit-partial-offload", caseLine, fmt.Sprintf("class=%s full fit declared on [%s] although %d of the model's %d layers are placed there (num_gpu=%d)", class, vpIds(got), e.Layers, blocks+1, cfg.NumGPU))
 		}
 		if len(got) > 1 {
 			// coverage: is the estimate sensitive to the order of this list? (enumeration order of the same GPUs)
@@ -1348,6 +1355,9 @@ func vlRunHistory(t *testing.T, out *zzverif.Out, cfg *vlCfg, l *vpLoaded, varia
 				out.L2("load-parallel", caseLine, fmt.Sprintf("step=%d numParallel=%d for an embedding/mllama model", si, res.p))
 			}
 			out.Count(fmt.Sprintf("load_p_%d", res.p))
+			if (cfg.M.Embed || cfg.M.Mllama) && cfg.M.Parallel != 1 {
+				out.Count("load_forced_parallel_1")
+			}
 			runners = append(runners, nr)
 			break
 		}
